@@ -241,30 +241,19 @@ theorem all_events_carry_scope_identity {cfg : Cfg} {pfx sep : Bytes} {tags : Ta
 
 /-! ## 3. the scope returned by SubScope / Tagged has the requested identity
 
-Proved for every configuration in states reached by programs all of whose `Tagged` maps are left
-unchanged by the sanitizer (`ReachF`; without a sanitizer these are all programs).  SubScope names
-may be changed by the sanitizer: the sanitized name enters the prefix.
+First (3a) for every configuration in states reached by programs all of whose `Tagged` maps are left
+unchanged by the sanitizer (`ReachF`; without a sanitizer these are all programs): the
+`…_sanitized_partial` theorems, with the strict registry invariant `Inv` (every registry key is the key of
+its scope's identity).  SubScope names may be changed by the sanitizer: the sanitized name enters the prefix.
 
-Not proved (full sanitized statement): `Tagged(m)` with a map `m` that the sanitizer changes, provided
-the sanitized keys of `m` stay distinct.  The scope is then also registered under the *raw* key
-`key pfx [parent.tags, m]`, so the registry invariant needs a second kind of entry (raw alias) and the
-idempotence of `sanitize`; this is not done here.
-
-Full statement (NOT proved; `Reach` instead of `ReachF`, no fixed-point hypothesis on `m`):
-
-    theorem tagged_result_identity_sanitized {cfg pfx sep tags st} (hr : Reach cfg pfx sep tags st)
-        -- every Tagged map used so far, and `m`, keeps its sanitized keys distinct
-        (hdist : ((m.map fun kv => sanKey cfg kv.1)).Nodup) (hp : getScope st p = some parent)
-        (h : (step st (.tagged p m sh)).2 = .scope (some id) evs) :
-        ∃ s, getScope (step st (.tagged p m sh)).1 id = some s ∧ s.pfx = parent.pfx ∧
-          s.tags = mergeTags parent.tags (sanMap cfg m)
-
-    theorem derivation_identity_sanitized … :
-        s.pfx = derivPfx st0.sep root.pfx (ds.map (D.san cfg)) ∧
-        s.tags = derivTags root.tags (ds.map fun | .tagged m => .tagged (sanMap cfg m) | d => d)
-
-The `…_sanitized_partial` theorems below prove exactly these statements under the additional hypothesis
-that every `Tagged` map of the whole execution satisfies `sanMap cfg m = canon [m]`.
+Then (3b) the full sanitized statements: `Tagged(m)` with a map `m` that the sanitizer changes, provided the
+sanitized keys of `m` — and of every `Tagged` map used before — stay distinct (`SanDistinct`, `ReachD`).
+The scope is then also registered under the *raw* key `key pfx [parent.tags, m]`; the generalised registry
+invariant `InvD` (`Lemmas/ScopeLemmas.lean`) allows a registry key to be the identity key of its scope or
+such a raw alias, and records that all tag maps are fixed points of the (idempotent) sanitizer.  A hit under
+a raw key is right because the sanitized overlay is a function of the raw overlay
+(`canon_san_congr`, `Lemmas/ScopeSanLemmas.lean`).  `SanDistinct` is necessary in the model
+(`Example.sanDistinct_needed_now`, `Example.sanDistinct_needed_before`).
 -/
 
 /-- the registry invariant: every registry entry points to an existing scope and is the key of that
@@ -292,8 +281,8 @@ theorem sub_result_identity_sanitized_partial {cfg : Cfg} {pfx sep : Bytes} {tag
       s.pfx = fqn st.sep parent.pfx (sanName st.cfg name) ∧ s.tags = parent.tags := by
   have hinv := reachF_inv hr
   simp only [step, hp] at h ⊢
-  obtain ⟨hc, hrc, s, hg, hpf, htg⟩ := (subscope_spec True (fun _ _ => True) st p _ [] sh
-    (fun _ => ⟨hinv, sanMap_nil _⟩) (fun _ _ _ => trivial)).2 trivial parent id evs hp h
+  obtain ⟨hc, hrc, s, hg, hpf, htg⟩ := (subscope_spec True False (fun _ _ => True) st p _ [] sh
+    (fun _ => ⟨hinv, sanMap_nil _⟩) (fun _ _ _ => trivial) (fun h => h.elim)).2.1 trivial parent id evs hp h
   refine ⟨hc, hrc, s, hg, hpf, ?_⟩
   rw [htg, canon_pair_nil]
   exact hinv.canon p parent hp
@@ -311,8 +300,8 @@ theorem tagged_result_identity_sanitized_partial {cfg : Cfg} {pfx sep : Bytes} {
   have hinv := reachF_inv hr
   have hm' : sanMap st.cfg m = canon [m] := by rw [reach_cfg hr.reach]; exact hm
   simp only [step, hp] at h ⊢
-  obtain ⟨hc, hrc, s, hg, hpf, htg⟩ := (subscope_spec True (fun _ _ => True) st p _ m sh
-    (fun _ => ⟨hinv, hm'⟩) (fun _ _ _ => trivial)).2 trivial parent id evs hp h
+  obtain ⟨hc, hrc, s, hg, hpf, htg⟩ := (subscope_spec True False (fun _ _ => True) st p _ m sh
+    (fun _ => ⟨hinv, hm'⟩) (fun _ _ _ => trivial) (fun h => h.elim)).2.1 trivial parent id evs hp h
   refine ⟨hc, hrc, s, hg, hpf, ?_, htg⟩
   rw [htg]
   exact (canon_pair_canon_right parent.tags m).symm
@@ -338,6 +327,64 @@ theorem tagged_result_identity {cfg : Cfg} {pfx sep : Bytes} {tags : TagMap} {st
       s.pfx = parent.pfx ∧ s.tags = mergeTags parent.tags (canon [m]) ∧
       s.tags = canon [parent.tags, m] :=
   tagged_result_identity_sanitized_partial (hr.toF hns) p parent hp m (sanMap_none hns m) sh id evs h
+
+/-! ### 3b. the full sanitized statements (maps changed by the sanitizer, sanitized keys distinct) -/
+
+/-- the generalised registry invariant: every registry entry points to an existing scope and its key is the
+key of that scope's identity or a raw alias key of it, all tag maps are canonical and fixed points of the
+sanitizer.  It holds at the root and is preserved by every operation whose `Tagged` map keeps its sanitized
+keys distinct, hence in all states of `ReachD`. -/
+theorem regInvD_reachable {cfg : Cfg} {pfx sep : Bytes} {tags : TagMap} {st : St}
+    (hr : ReachD cfg pfx sep tags st) : InvD st := reachD_invD hr
+
+theorem regInvD_root (cfg : Cfg) (pfx sep : Bytes) (tags : TagMap) : InvD (mkRoot cfg pfx sep tags) :=
+  mkRoot_invD cfg pfx sep tags
+
+theorem regInvD_step (st : St) (op : Op) (hmet : MetInv st) (hinv : InvD st)
+    (hd : SanDistinctOp st.cfg op) : InvD (step st op).1 := step_invD st op hmet hinv hd
+
+/-- the sanitized overlay only depends on the raw overlay: the reason why a registry hit under a raw key
+is right -/
+theorem sanitized_overlay_of_raw_overlay {cfg : Cfg} {A B A' B' : TagMap}
+    (hA : FixedTags cfg A) (hA' : FixedTags cfg A') (hB : SanDistinct cfg B) (hB' : SanDistinct cfg B')
+    (h : canon [A, B] = canon [A', B']) : canon [A, sanMap cfg B] = canon [A', sanMap cfg B'] :=
+  canon_san_congr hA hA' hB hB' h
+
+/-- `SubScope(name)`, any sanitizer: the result has prefix `fqn sep parent.pfx (sanitized name)` and the
+parent's tags -/
+theorem sub_result_identity_sanitized {cfg : Cfg} {pfx sep : Bytes} {tags : TagMap} {st : St}
+    (hr : ReachD cfg pfx sep tags st) (p : Nat) (parent : ScopeS)
+    (hp : getScope st p = some parent) (name : Bytes) (sh id : Nat) (evs : List Event)
+    (h : (step st (.sub p name sh)).2 = .scope (some id) evs) :
+    parent.closed = false ∧ st.rootClosed = false ∧
+    ∃ s, getScope (step st (.sub p name sh)).1 id = some s ∧
+      s.pfx = fqn st.sep parent.pfx (sanName st.cfg name) ∧ s.tags = parent.tags := by
+  have hinv := reachD_invD hr
+  simp only [step, hp] at h ⊢
+  obtain ⟨hc, hrc, s, hg, hpf, htg⟩ := (subscope_spec False True (fun _ _ => True) st p _ [] sh
+    (fun h => h.elim) (fun h => h.elim) (fun _ => ⟨hinv, sanDistinct_nil _⟩)).2.2 trivial parent id evs hp h
+  refine ⟨hc, hrc, s, hg, hpf, ?_⟩
+  rw [htg, sanMap_nil', canon_pair_nil]
+  exact hinv.canon p parent hp
+
+/-- **`Tagged(m)`, any sanitizer**: if the sanitized keys of `m` (and of every `Tagged` map used before)
+are distinct, the result has the parent's prefix and the parent's tags overlaid by the sanitized `m` —
+whether the scope was created, found under its identity key, or found under a raw alias key -/
+theorem tagged_result_identity_sanitized {cfg : Cfg} {pfx sep : Bytes} {tags : TagMap} {st : St}
+    (hr : ReachD cfg pfx sep tags st) (p : Nat) (parent : ScopeS)
+    (hp : getScope st p = some parent) (m : TagMap) (hm : SanDistinct cfg m) (sh id : Nat)
+    (evs : List Event) (h : (step st (.tagged p m sh)).2 = .scope (some id) evs) :
+    parent.closed = false ∧ st.rootClosed = false ∧
+    ∃ s, getScope (step st (.tagged p m sh)).1 id = some s ∧
+      s.pfx = parent.pfx ∧ s.tags = mergeTags parent.tags (sanMap cfg m) := by
+  have hinv := reachD_invD hr
+  have hcfg : st.cfg = cfg := reach_cfg hr.reach
+  simp only [step, hp] at h ⊢
+  obtain ⟨hc, hrc, s, hg, hpf, htg⟩ := (subscope_spec False True (fun _ _ => True) st p _ m sh
+    (fun h => h.elim) (fun h => h.elim) (fun _ => ⟨hinv, by rw [hcfg]; exact hm⟩)).2.2 trivial parent id evs
+    hp h
+  refine ⟨hc, hrc, s, hg, hpf, ?_⟩
+  rw [htg, hcfg]; rfl
 
 /-! ## 4. name and tags follow the derivation -/
 
@@ -530,6 +577,104 @@ theorem metric_events_follow_derivation {cfg : Cfg} {pfx sep : Bytes} {tags : Ta
   rw [hev, hp, ht, hsep]
   rfl
 
+/-! ### the full sanitized derivation theorem -/
+
+/-- a derivation where every `Tagged` map of the execution (of the derivation and of the interleaved
+operations) keeps its sanitized keys distinct -/
+inductive DerivesD (cfg : Cfg) : St → List D → St → Nat → Prop
+  | root (st0 : St) : DerivesD cfg st0 [] st0 0
+  | others {st0 : St} {ds : List D} {st : St} {id : Nat} (ops : List Op) :
+      DerivesD cfg st0 ds st id → DistinctOps cfg ops → DerivesD cfg st0 ds (runOps st ops) id
+  | call {st0 : St} {ds : List D} {st : St} {p : Nat} (d : D) (sh id : Nat) (evs : List Event) :
+      DerivesD cfg st0 ds st p → SanDistinctOp cfg (d.op p sh) →
+      (step st (d.op p sh)).2 = .scope (some id) evs →
+      DerivesD cfg st0 (ds ++ [d]) (step st (d.op p sh)).1 id
+
+theorem DerivesD.derives {cfg : Cfg} {st0 st : St} {ds : List D} {id : Nat}
+    (h : DerivesD cfg st0 ds st id) : Derives st0 ds st id := by
+  induction h with
+  | root => exact .root _
+  | others ops _ _ ih => exact .others ops ih
+  | call d sh id evs _ _ ho ih => exact .call d sh id evs ih ho
+
+theorem DerivesD.reachD {cfg : Cfg} {pfx sep : Bytes} {tags : TagMap} {st0 st : St} {ds : List D} {id : Nat}
+    (h : DerivesD cfg st0 ds st id) (hr : ReachD cfg pfx sep tags st0) : ReachD cfg pfx sep tags st := by
+  induction h with
+  | root => exact hr
+  | others ops _ hf ih => exact ih.run hf
+  | call d sh id evs _ hf _ ih => exact ih.step hf
+
+/-- without a sanitizer: every derivation all of whose `Tagged` maps have distinct keys -/
+theorem sanDistinctOp_of_none {cfg : Cfg} (hns : cfg.san = none) (p : Nat) (m : TagMap) (sh : Nat)
+    (hm : (m.map (·.1)).Nodup) : SanDistinctOp cfg (.tagged p m sh) := sanDistinct_of_none hns hm
+
+/-- **(any configuration, sanitized keys of all `Tagged` maps distinct) the scope a derivation ends in has
+the derived prefix — built from the sanitized names — and the derived tags — the root tags overlaid by
+each sanitized `Tagged` map in order** -/
+theorem derivation_identity_sanitized {cfg : Cfg} {pfx sep : Bytes} {tags : TagMap} {st0 : St}
+    (hr : ReachD cfg pfx sep tags st0) (root : ScopeS)
+    (hroot : getScope st0 0 = some root) {ds : List D} {st : St} {id : Nat}
+    (h : DerivesD cfg st0 ds st id) :
+    ∃ s, getScope st id = some s ∧ s.pfx = derivPfx st0.sep root.pfx (ds.map (D.san cfg)) ∧
+      s.tags = derivTags root.tags (ds.map fun | .tagged m => .tagged (sanMap cfg m) | d => d) := by
+  induction h with
+  | root => exact ⟨root, hroot, rfl, rfl⟩
+  | others ops _ _ ih =>
+    obtain ⟨s, hg, hp, ht⟩ := ih
+    obtain ⟨s', hg', hp', ht', _⟩ := scope_identity_constant_run ops _ _ s hg
+    exact ⟨s', hg', hp'.trans hp, ht'.trans ht⟩
+  | @call ds st p d sh id evs hd hfix hout ih =>
+    obtain ⟨parent, hg, hp, ht⟩ := ih
+    have hrst := hd.reachD hr
+    have hsep : st.sep = st0.sep := by
+      rw [(cfg_sep_constant hrst.reach).2, (cfg_sep_constant hr.reach).2]
+    have hcfg : st.cfg = cfg := reach_cfg hrst.reach
+    cases d with
+    | sub n =>
+      obtain ⟨_, _, s, hs, hpf, htg⟩ :=
+        sub_result_identity_sanitized hrst p parent hg n sh id evs hout
+      refine ⟨s, hs, ?_, ?_⟩
+      · rw [List.map_append, List.map_cons, List.map_nil, derivPfx_snoc, hpf, hp, hsep, hcfg]; rfl
+      · rw [List.map_append, List.map_cons, List.map_nil, derivTags_snoc, htg, ht]
+    | tagged m =>
+      obtain ⟨_, _, s, hs, hpf, htg⟩ :=
+        tagged_result_identity_sanitized hrst p parent hg m hfix sh id evs hout
+      refine ⟨s, hs, ?_, ?_⟩
+      · rw [List.map_append, List.map_cons, List.map_nil, derivPfx_snoc, hpf, hp]; rfl
+      · rw [List.map_append, List.map_cons, List.map_nil, derivTags_snoc, htg, ht]; rfl
+
+/-- (any configuration, sanitized keys of all `Tagged` maps distinct) prefix and tags of the scope a
+derivation from the root ends in: root prefix, separator and names pass through the name sanitizer, the
+root tags and every `Tagged` map through the tag sanitizer -/
+theorem name_tags_follow_derivation_sanitized {cfg : Cfg} {pfx sep : Bytes} {tags : TagMap}
+    {ds : List D} {st : St} {id : Nat} (h : DerivesD cfg (mkRoot cfg pfx sep tags) ds st id) :
+    ∃ s, getScope st id = some s ∧
+      s.pfx = derivPfx (sanName cfg (if sep.isEmpty then [46] else sep)) (sanName cfg pfx)
+        (ds.map (D.san cfg)) ∧
+      s.tags = derivTags (sanMap cfg tags)
+        (ds.map fun | .tagged m => .tagged (sanMap cfg m) | d => d) :=
+  derivation_identity_sanitized (ReachD.root cfg pfx sep tags) _ rfl h
+
+/-- … and a metric of that scope is delivered under the derived (sanitized) prefix joined with the metric's
+stored name, with exactly the derived (sanitized) tags -/
+theorem metric_events_follow_derivation_sanitized {cfg : Cfg} {pfx sep : Bytes} {tags : TagMap}
+    {ds : List D} {st : St} {id : Nat} (h : DerivesD cfg (mkRoot cfg pfx sep tags) ds st id) :
+    ∃ s, getScope st id = some s ∧ ∀ e ∈ (reportScope st.sep s).2, ∃ x ∈ s.metrics,
+      eventNameTags e = some
+        (Spec.C04.join (sanName cfg (if sep.isEmpty then [46] else sep))
+          (derivPfx (sanName cfg (if sep.isEmpty then [46] else sep)) (sanName cfg pfx)
+            (ds.map (D.san cfg))) (metricName x.2),
+         derivTags (sanMap cfg tags) (ds.map fun | .tagged m => .tagged (sanMap cfg m) | d => d)) := by
+  obtain ⟨s, hg, hp, ht⟩ := name_tags_follow_derivation_sanitized h
+  refine ⟨s, hg, ?_⟩
+  intro e he
+  obtain ⟨x, hx, hev⟩ := events_carry_scope_identity st.sep s e he
+  refine ⟨x, hx, ?_⟩
+  have hsep : st.sep = sanName cfg (if sep.isEmpty then [46] else sep) :=
+    (cfg_sep_constant (h.derives.reach (Reach.root cfg pfx sep tags))).2
+  rw [hev, hp, ht, hsep]
+  rfl
+
 /-- an empty root prefix contributes no leading separator: the first name is the whole prefix -/
 theorem empty_prefix_no_leading_separator (sep : Bytes) (n : Bytes) (ds : List D) :
     derivPfx sep [] (.sub n :: ds) = derivPfx sep n ds ∧
@@ -624,6 +769,67 @@ example : ∃ s, getScope (step (step rootS (.sub 0 [98, 46] 0)).1 (.tagged 1 m0
     s.pfx = derivPfx (sanName cfgS [46]) (sanName cfgS [97]) [.sub (sanName cfgS [98, 46]), .tagged m0] ∧
     s.tags = derivTags (sanMap cfgS []) [.sub [98, 46], .tagged m0] :=
   name_tags_follow_derivation_sanitized_partial derivesS
+
+/-! ### the full sanitized theorems: a map the sanitizer changes -/
+
+/-- the map `{k-: v}`; the sanitizer turns it into `{k_: v}` -/
+def mK : TagMap := [([107, 45], [118])]
+
+example : sanMap cfgS mK = [([107, 95], [118])] := by decide +kernel
+theorem mK_distinct : SanDistinct cfgS mK := by unfold SanDistinct; decide +kernel
+
+/-- after `root.SubScope("b.").Tagged({k-: v})` (returns scope 2) -/
+def stK : St := (step (step rootS (.sub 0 [98, 46] 0)).1 (.tagged 1 mK 0)).1
+
+theorem derivesK : DerivesD cfgS rootS [.sub [98, 46], .tagged mK] stK 2 :=
+  .call (ds := [.sub [98, 46]]) (.tagged mK) 0 2 []
+    (.call (ds := []) (.sub [98, 46]) 0 1 [] (.root rootS) trivial (of_isScope (by decide +kernel)))
+    mK_distinct (of_isScope (by decide +kernel))
+
+/-- the scope is called `a_b_` (the separator `.` is sanitized as well) and tagged `{k_: v}` (sanitized
+name, sanitized map) -/
+example : ∃ s, getScope stK 2 = some s ∧ s.pfx = [97, 95, 98, 95] ∧ s.tags = [([107, 95], [118])] := by
+  obtain ⟨s, h1, h2, h3⟩ := name_tags_follow_derivation_sanitized derivesK
+  refine ⟨s, h1, ?_, ?_⟩
+  · rw [h2]; decide +kernel
+  · rw [h3]; decide +kernel
+
+/-- the same call again is answered from the raw alias key, the call with the sanitized map `{k_: v}` from
+the identity key: both return scope 2, as `tagged_result_identity_sanitized` requires -/
+example : isScope (step stK (.tagged 1 mK 0)).2 2 = true := by decide +kernel
+example : isScope (step stK (.tagged 1 [([107, 95], [118])] 0)).2 2 = true := by decide +kernel
+
+/-! ### `SanDistinct` is necessary in the model -/
+
+/-- `{a_: x}`, `{a-: y}` and the map `{a_: x, a-: y}` (enumerated in this order) whose two keys are both
+sanitized to `a_` -/
+def mA : TagMap := [([97, 95], [120])]
+def mB : TagMap := [([97, 45], [121])]
+def mBad : TagMap := [([97, 95], [120]), ([97, 45], [121])]
+
+theorem mA_distinct : SanDistinct cfgS mA := by unfold SanDistinct; decide +kernel
+theorem mB_distinct : SanDistinct cfgS mB := by unfold SanDistinct; decide +kernel
+theorem mBad_not_distinct : ¬ SanDistinct cfgS mBad := by unfold SanDistinct; decide +kernel
+
+/-- the hypothesis on the requested map cannot be dropped: after `root.Tagged({a_: x}).Tagged({a-: y})`
+(scope 2, tags `{a_: y}`, raw alias key of the overlay `{a-: y, a_: x}`) the call
+`root.Tagged({a_: x, a-: y})` has the same raw key and is answered with scope 2, although the sanitized map
+is `{a_: x}` -/
+theorem sanDistinct_needed_now :
+    isScope (step (runOps rootS [.tagged 0 mA 0, .tagged 1 mB 0]) (.tagged 0 mBad 0)).2 2 = true ∧
+    (getScope (step (runOps rootS [.tagged 0 mA 0, .tagged 1 mB 0]) (.tagged 0 mBad 0)).1 2).map (·.tags)
+      = some [([97, 95], [121])] ∧
+    mergeTags [] (sanMap cfgS mBad) = [([97, 95], [120])] := by decide +kernel
+
+/-- the hypothesis on the earlier maps (`ReachD`) cannot be dropped either: after
+`root.Tagged({a_: x, a-: y})` (scope 1, tags `{a_: x}`) the call `scope1.Tagged({a-: y})` with a map whose
+sanitized keys are distinct has the raw key of scope 1 and is answered with scope 1, although the parent's
+tags overlaid by the sanitized map are `{a_: y}` -/
+theorem sanDistinct_needed_before :
+    isScope (step (runOps rootS [.tagged 0 mBad 0]) (.tagged 1 mB 0)).2 1 = true ∧
+    (getScope (step (runOps rootS [.tagged 0 mBad 0]) (.tagged 1 mB 0)).1 1).map (·.tags)
+      = some [([97, 95], [120])] ∧
+    mergeTags [([97, 95], [120])] (sanMap cfgS mB) = [([97, 95], [121])] := by decide +kernel
 
 end Example
 
